@@ -96,9 +96,13 @@ def reference(trees, sep):
         res[lv] = dict(tokens=len(flat), types=len(cnt), hapaxes=sum(1 for v in cnt.values() if v == 1),
                        unigram={k: Fraction(v, len(flat)) for k, v in cnt.items()})
     flat = [x for u in words for x in u]
+    # moving-average type/token ratio: the mean over ALL the windows of ten consecutive word tokens (len - 10 + 1 of them).
+    # The code leaves the last window out (range(len - size)): known finding `mattr_last_window_missing`, its value is
+    # kept next to the definition so that the finding can be told from any other discrepancy
     n = len(flat) - 10
-    mattr = sum(Fraction(len(set(flat[x:x + 10])), 10) for x in range(n)) / n
-    res['corpus'] = dict(nutts=len(trees), single=sum(1 for u in words if len(u) == 1), mattr=mattr)
+    mattr = sum(Fraction(len(set(flat[x:x + 10])), 10) for x in range(n + 1)) / (n + 1)
+    mattr_code = sum(Fraction(len(set(flat[x:x + 10])), 10) for x in range(n)) / n
+    res['corpus'] = dict(nutts=len(trees), single=sum(1 for u in words if len(u) == 1), mattr=mattr, mattr_without_last_window=mattr_code)
     if p:
         nph = len([x for u in levels['phones'] for x in u])
         res['corpus']['entropy'] = entropy_of([res['words']['unigram'][x] for x in flat], nph)
@@ -126,6 +130,16 @@ def make_case(trees, sep, style, rng, family, tail='newline'):
     family = family if tail == 'newline' else family + '+' + tail
 
     def oracle(out):
+        why = oracle_but_mattr(out)
+        if why or out[0] != 'ok':
+            return why
+        c, ref = out[1][0]['corpus'], reference(trees, sep)
+        if not eg.close(c['mattr'], ref['corpus']['mattr']):
+            return 'mattr %r differs from the definition %s (mean over all %d windows of ten word tokens)' % (
+                c['mattr'], float(ref['corpus']['mattr']), ref['words']['tokens'] - 9)
+        return None
+
+    def oracle_but_mattr(out):
         if out[0] != 'ok':
             return 'describe_all raised ' + out[1]
         d, uni = out[1]
@@ -133,8 +147,6 @@ def make_case(trees, sep, style, rng, family, tail='newline'):
         c = d['corpus']
         if c['nutts'] != ref['corpus']['nutts'] or c['nutts_single_word'] != ref['corpus']['single']:
             return 'utterance counts %r differ from %r' % (dict(c), ref['corpus'])
-        if not eg.close(c['mattr'], ref['corpus']['mattr']):
-            return 'mattr %r differs from the definition %s' % (c['mattr'], ref['corpus']['mattr'])
         if 'entropy' in ref['corpus'] and not eg.close(c.get('entropy'), ref['corpus']['entropy']):
             return 'entropy %r differs from the definition %r' % (c.get('entropy'), ref['corpus']['entropy'])
         prev = None
@@ -161,6 +173,12 @@ def make_case(trees, sep, style, rng, family, tail='newline'):
         # space-padded tagging whose spaces are not phone separators: the tokens of the implementation keep padding spaces
         if style != 'compact' and sep[0] != ' ' and out[0] == 'ok' and any(' ' in k for u in out[1][1].values() for k in u):
             return {'padding_space_inside_token'}
+        # everything else agrees with the direct counts and the reported ratio is exactly the mean without the last window
+        if out[0] == 'ok' and oracle_but_mattr(out) is None:
+            ref = reference(trees, sep)
+            m = out[1][0]['corpus']['mattr']
+            if not eg.close(m, ref['corpus']['mattr']) and eg.close(m, ref['corpus']['mattr_without_last_window']):
+                return {'mattr_last_window_missing'}
         return set()
     return dict(op=1301, arg=[text2j(text), sl.sepj(sep)], site='statistics.CorpusStatistics',
                 desc={'text': text, 'sep': sep, 'family': family},
